@@ -65,39 +65,11 @@ def run_config(chk, config):
                   {"obligation": "%s: block i XOR MD5(key i), 16 octets" % name})
     # plaintext: original length = total length of the original AVP; minimal alignment; multiple of 16
     atc = attr_type_consts(fx)
-    n_ok = 0
-    probs = []
+    from hiding import plaintext_facts
     dests = set(x["dest"] for x in xor_facts(engh, H, key_facts(engh, H)[1]))
-    for st, did, d in H.md5s:
-        nk = norm_key(engh, d)
-        if not (nk and nk[0][0] == "type16"):
-            continue
-        for cell in dests:
-            v = st.cells.get(cell)
-            if not isinstance(v, VVec) or not v.segs:
-                probs.append("plaintext content unknown")
-                continue
-            segs = v.segs
-            lenf = segs[0][1]
-            body = Lin.const(0)
-            for sl, sd in segs[1:]:
-                if sd[0] in ("sym", "arr") and ("length_padding" in str(sd[1]) or "alignment_padding" in str(sd[1])):
-                    break
-                body = body + sl
-            if not (lenf[0] == "be" and lenf[2] == 2 and isinstance(lenf[1], VInt) and engh.ent(st, c_eq(lenf[1].lin, body + 6))):
-                probs.append("original-length subfield %r is not 6 + |value| (%r)" % (getattr(lenf[1], "lin", lenf), body))
-            ap = [s for s in segs if s[1][0] == "arr" and "alignment_padding" in str(s[1][1])]
-            lp = [s for s in segs if s[1][0] == "sym" and s[1][1] == "length_padding"]
-            if not lp:
-                probs.append("length padding not in the plaintext")
-            pre = Lin.const(2) + body + (lp[0][0] if lp else Lin.const(0))
-            p = ap[0][0] if ap else Lin.const(0)
-            lo, hi = engh.bounds(st, p)
-            q, r = engh.divmod_const(st, pre + p, B)
-            if not (lo is not None and lo >= 0 and hi is not None and hi <= B - 1 and engh.ent(st, c_eq(r, Lin.const(0)))
-                    and engh.ent(st, c_eq(v.len, pre + p))):
-                probs.append("alignment padding %r (bounds %s..%s) is not the minimal amount to a multiple of %d" % (p, lo, hi, B))
-            n_ok += 1
+    pf = plaintext_facts(engh, H, dests)
+    n_ok = len(pf)
+    probs = [p for f in pf for p in f["problems"]]
     chk.oblig(not probs and n_ok >= 39, "plaintext | hide", "hide plaintext differs from RFC 2661 4.3: %s" % sorted(set(probs))[:2],
               {"rule": "original length(2) | value | length padding | minimal alignment; |hidden| = 16*ceil((2+|value|+|lp|)/16)", "problems": sorted(set(probs))},
               {"obligation": "hide: plaintext layout, original length = total AVP length, minimal alignment", "paths": n_ok})
